@@ -475,6 +475,33 @@ fn structured_family(tier: Tier) -> Vec<(String, String)> {
         push("command frame with MORE".into(), vec![0x05, 0x06, 0x05, b'R', b'E', b'A', b'D', b'Y']);
         push("non-UTF-8 property name".into(), command_frame(&[5, b'R', b'E', b'A', b'D', b'Y', 2, 0xff, 0xfe, 0, 0, 0, 0]));
     }
+    // WELL-FORMED commands whose VALUES are the peer's choice: a READY with every Socket-Type value of interest (the
+    // twelve names of the RFC - the socket's answer to each is a table lookup -, case variants, unknown, empty, very long,
+    // with a NUL), identities at the size boundaries, properties repeated or unknown. The codec treats them all alike,
+    // so they are marked for the socket-level part explicitly ("READY value:").
+    {
+        let ready = |props: &[(&[u8], &[u8])]| -> Vec<u8> {
+            let owned: Vec<(Vec<u8>, Vec<u8>)> = props.iter().map(|(k, v)| (k.to_vec(), v.to_vec())).collect();
+            rc::encode_command(b"READY", &owned)
+        };
+        let long_name = vec![b'T'; 255];
+        let types: Vec<&[u8]> = vec![b"PAIR", b"PUB", b"SUB", b"REQ", b"REP", b"DEALER", b"ROUTER", b"PULL", b"PUSH", b"XPUB", b"XSUB", b"STREAM", b"stream", b"Stream", b"dealer", b"SERVER", b"CLIENT", b"RADIO", b"DISH", b"GATHER", b"SCATTER", b"DGRAM", b"PEER", b"CHANNEL", b"", b"X", b"DEALER\0", b"\0", &long_name];
+        for t in &types {
+            push(format!("READY value: Socket-Type {:?}", String::from_utf8_lossy(&t[..t.len().min(12)])), ready(&[(b"Socket-Type", t)]));
+        }
+        for t in [&b"STREAM"[..], b"DEALER", b"PUB"] {
+            push(format!("READY value: Socket-Type {:?} with an Identity", String::from_utf8_lossy(t)), ready(&[(b"Socket-Type", t), (b"Identity", b"i")]));
+            push(format!("READY value: Socket-Type {:?} given twice", String::from_utf8_lossy(t)), ready(&[(b"Socket-Type", t), (b"Socket-Type", t)]));
+            push(format!("READY value: property names in lower case, type {:?}", String::from_utf8_lossy(t)), ready(&[(b"socket-type", t), (b"identity", b"i")]));
+            push(format!("READY value: Identity first, then Socket-Type {:?}", String::from_utf8_lossy(t)), ready(&[(b"Identity", b"i"), (b"Socket-Type", t)]));
+        }
+        for n in [0usize, 1, 254, 255, 256, 300] {
+            let idv = vec![b'i'; n];
+            push(format!("READY value: DEALER with a {}-byte Identity", n), ready(&[(b"Socket-Type", b"DEALER"), (b"Identity", &idv)]));
+        }
+        push("READY value: unknown properties only".into(), ready(&[(b"X-Foo", b"bar"), (b"Resource", b"r")]));
+        push("READY value: no property at all".into(), ready(&[]));
+    }
     // long frames with hostile 64-bit lengths
     let lens: &[u64] = &[
         0,
@@ -843,7 +870,7 @@ pub fn run(tier: Tier, replay: Option<String>) -> i32 {
             }
             Err(_) => ck.machinery_error(format!("child for {} printed no result: {:?} / {:?}", spec, out.stdout, out.stderr)),
         }
-        if distinct_outcomes.insert(outcome_sig.clone()) || spec.starts_with("chain") || spec.starts_with("lchain") || spec.starts_with("cchain") || desc.starts_with("long frame") {
+        if distinct_outcomes.insert(outcome_sig.clone()) || desc.starts_with("READY value:") || spec.starts_with("chain") || spec.starts_with("lchain") || spec.starts_with("cchain") || desc.starts_with("long frame") {
             // representatives for the socket-level part: one input per distinct codec-level outcome, plus all chains / hostile lengths
             if !(desc.starts_with("long frame") && !desc.ends_with("0 byte(s)")) {
                 e3_specs.push((desc.clone(), spec.clone()));
